@@ -51,20 +51,23 @@ ASSUMPTIONS = [
     "single-threaded: to_exit status WAKE (cross-thread exit) is C14's",
 ]
 EVIDENCE_NOTES = [
-    "evl_backends_agree is proved for the FLAT sub-class of S (evl_backends_agree_partial / evl_flat_outcome): scripts "
-    "without read-callback triggers - every write / half-close / close / add / wake-up is issued before run() or from an "
-    "idle phase (the wake callback at quiescence), any number of phases, three descriptor kinds -, no scripted exit or "
-    "shutdown, adds fitting hints_max_fd: each back-end, on the model's kernel function, ends with the outcome of a "
-    "back-end-free specification (every registered context offered every byte written to it; closed iff its peer "
-    "terminated, else cleared).  NOT proved: scripts of S whose read callbacks issue actions (triggers); for those the "
-    "proved part is evl_backends_agree_visit (a visit transforms the shared state identically in the three back-ends) and "
-    "the monitor checks agreement on every generated S script (160 per quick run incl. 20 flat ones, 2600 per thorough run); "
-    "evl_backends_agree_refuted shows agreement fails outside S",
+    "evl_backends_agree is proved for the sub-class SW of S (evl_backends_agree_partial / evl_sw_outcome): every "
+    "read-callback trigger WRITES to some context's peer (threshold >= 1, distinct trigger lines; chains, cycles, several "
+    "writers into one context, self-writes allowed); every other action (half-close, close, add, wake-up, write) is issued "
+    "before run() or from an idle phase (wake callback at quiescence), any number of phases, three descriptor kinds; no "
+    "scripted exit or shutdown; adds fitting hints_max_fd.  The specification fires, between two phases, the least fixpoint "
+    "of 'registered and threshold reached by the bytes written so far' (Kleene iteration, order-independent); each back-end's "
+    "fired set is justified (below the fixpoint) and closed at quiescence (above it), so each loop ends with the "
+    "specification's outcome.  The flat class (no triggers) is the special case.  NOT proved: scripts of S whose triggers "
+    "terminate a peer, add a context, shut the acting context down at its threshold, or wake the loop; for those the proved "
+    "part is evl_backends_agree_visit and the monitor checks agreement on every generated S script (190 per quick run incl. "
+    "20 flat and 30 SW ones; 2900 per thorough run); evl_backends_agree_refuted shows agreement fails outside S",
     "evl_read_called_when_pending is proved for the three back-ends; for poll modulo the double decrement of n for an fd "
     "reporting POLLIN and POLLHUP together: read in this pass, or the slot is untouched and the context is reported readable "
-    "again by the next kernel call (examples poll_double_decrement_skips_one_pass, read_poll_second_alternative): a one-pass "
-    "delay, not a loss, hence no patch; combined with an exit requested in that same pass it falls in the racing-exit part "
-    "of the known finding",
+    "again by the next kernel call (examples poll_double_decrement_skips_one_pass, read_poll_second_alternative): a delay, "
+    "not a loss, hence no patch.  Not proved as a theorem: the bound on the delay (every pass that skips a ready slot closes "
+    "a higher slot, so a slot at index j is read after at most nfd-j passes); combined with an exit requested in the "
+    "skipping pass it falls in the racing-exit part of the known finding",
     "class S as checked is narrower than DESIGN.md's sketch, because the real loops are order-sensitive in more ways: "
     "no scripted exit (the loop exits at quiescence), self-shutdown only once everything the script can send has been read, "
     "a peer terminated from a callback gets all its callback-issued writes from that same context, contexts <= hints_max_fd",
@@ -386,6 +389,19 @@ def generate(rng, tier):
     for i in range(20 if quick else 200):
         c = _gen_S(rng.fork("F%d" % i), "F-%d" % i, 16 if i % 2 else 5)
         c.lines = [ln for ln in c.lines if not ln.startswith("on ")]
+        cases.append(c)
+    # the sub-class SW of S (triggers only write): the one evl_backends_agree_partial is proved for
+    for i in range(30 if quick else 300):
+        c = _gen_S(rng.fork("W%d" % i), "W-%d" % i, 16 if i % 2 else 5)
+        keep, seen = [], set()
+        for ln in c.lines:
+            if ln.startswith("on "):
+                w = ln.split()
+                if w[3] != "write" or int(w[2]) < 1 or ln in seen:
+                    continue
+                seen.add(ln)
+            keep.append(ln)
+        c.lines = keep
         cases.append(c)
     for i in range(nX):
         cases.append(_gen_X(rng.fork("X%d" % i), "X-%d" % i, 16 if i % 2 else 4))
@@ -750,6 +766,9 @@ def tally(dist, case, lines):
     inc("class=%s" % sc.cls)
     if sc.cls == "S" and not sc.trigs:
         inc("class=S-flat")
+    elif sc.cls == "S" and all(a[0] == "write" and b >= 1 for c, b, a in sc.trigs) and \
+            len(set(sc.trigs)) == len(sc.trigs) and not any(a[0] in ("shut", "exit") for p in sc.phases for a in p):
+        inc("class=S-sw")
     inc("contexts", len(sc.kinds))
     inc("pool=%d" % sc.pool)
     for k in sc.kinds.values():
@@ -786,8 +805,8 @@ MANIFEST = {
                    "context at most once, never calls back after close, clears exactly the still-registered contexts "
                    "once, exits once, reads every context the kernel reported; add / capacity-reject / remove leave "
                    "every other context's registration and data untouched; agreement of the back-ends is proved for the "
-                   "flat sub-class of S (actions issued from idle phases only) and refuted in general (known finding "
-                   "cross-shutdown).  Model tied to the code by running "
+                   "sub-class SW of S (read-callback triggers that write; everything else issued from idle phases) via a "
+                   "least-fixpoint specification, and refuted in general (known finding cross-shutdown).  Model tied to the code by running "
                    "the real loops on real pipes / socket pairs / loopback TCP and feeding the logged kernel reports to "
                    "the extracted model; independent life-cycle/accounting/agreement monitor."),
     "design_ref": "DESIGN.md section 6 / C13, section 5 row C13",
